@@ -39,6 +39,7 @@ from ..parser import replace
 import subprocess
 import sys
 import os
+import re
 import numpy as np
 # Note: `from numpy import f2py` is deferred to FortranBackend.__init__.
 # In numpy >= 2.0 the f2py module pulls in distutils / meson eagerly, which
@@ -200,6 +201,7 @@ class FortranBackend(BaseBackend):
         """Add code line string to code.
         """
         for code in code_str.split('\n'):
+            code = self._double_precision_literals(code)
             if self.linebreak_end not in code:
                 code = code.replace('\t', '')
                 code = '\t' * self.lvl + code
@@ -211,6 +213,17 @@ class FortranBackend(BaseBackend):
                 self.add_code_line(code)
             else:
                 self.code.append(code)
+
+    _FLOAT_LITERAL = re.compile(r'(?<![\w.])(\d+\.\d*|\.\d+|\d+(?=[eE][-+]?\d))([eE][-+]?\d+)?(?![\w.(])')
+
+    def _double_precision_literals(self, code: str) -> str:
+        """A plain ``1.1`` is a single-precision constant in Fortran (1.10000002...), which limits the whole
+        expression to ~1e-8 relative accuracy. With double-precision variables, emit ``1.1d0`` instead."""
+        if 'float64' not in str(self._float_precision):
+            return code
+        head, sep, comment = code.partition('!')
+        head = self._FLOAT_LITERAL.sub(lambda m: f"{m.group(1)}d{m.group(2)[1:]}" if m.group(2) else f"{m.group(1)}d0", head)
+        return f"{head}{sep}{comment}"
 
     def break_line(self, code: str):
         n = len(code)
@@ -1168,4 +1181,8 @@ class FortranBackend(BaseBackend):
     def _var_to_str(y: ComputeVar) -> str:
         if y.is_complex:
             return f"({np.real(y.value)}, {np.imag(y.value)})"
+        if np.ndim(y.value) == 0 and 'float' in str(np.asarray(y.value).dtype):
+            # double-precision literal: a plain `0.3` is a single-precision constant in Fortran (0.30000001192...)
+            lit = repr(float(y.value))
+            return lit.replace('e', 'd') if 'e' in lit else f"{lit}d0"
         return f"{y.value}"
